@@ -217,12 +217,12 @@ Section Cut.
     - (* a child *)
       simpl kids_of in HK, W. inversion HK as [|? ? Hc HKr]; subst. simpl in Hc.
       simpl in W. apply andb_true_iff in W as [Wc Wr].
-      assert (Vi := step_i _ _ _ _ _ _ Wr V).
-      assert (Vc := step_c _ _ _ _ _ _ Wc Wr V).
-      assert (Vr := step_r _ _ _ _ _ _ Wc Wr V).
+      assert (Vi : In i (cvisited st) <-> fl = true /\ sh e = true) by (eapply step_i; eauto).
+      assert (Vc : vinv (cvisited st) (fl && sh e) (uslots c) (S i)) by (eapply step_c; eauto).
+      assert (Vr : vinv (cvisited st) fl r (S i + nedges c)) by (eapply step_r; eauto).
       assert (Nc := nedges_slots c Wc).
-      assert (Wk := wf_sub_kids c Wc).
-      simpl cut_go. simpl sg_go.
+      assert (Wk : forallb (fun p => wf_sub (snd p)) (kids_of (uslots c)) = true) by (eapply wf_sub_kids; eauto).
+      simpl sg_go.
       set (inext := S i + nedges c) in *.
       set (visit := fun _ : unit =>
              ((if tipflag then [n] else []) ++ fst (flood_slots maxlen up pre base) ++ fst (flood_slots maxlen up r inext),
@@ -246,9 +246,10 @@ Section Cut.
                    (forall x, In x (cvisited st1) <-> In x (cvisited st) \/ x = i \/
                               (fl = false /\ sh e = true /\ (In x (sids (uslots c) (S i)) \/ In x (sids r inext))))).
       { unfold st1, here. destruct (mem_nat i (cvisited st)) eqn:M.
-        - apply mem_nat_In in M. apply Vi in M. destruct M as [F Sh]. rewrite F, Sh in *. simpl.
-          rewrite app_nil_r. repeat split; auto.
-          + intros [H|[->|[H _]]]; auto; [apply Vi; auto|discriminate].
+        - apply mem_nat_In in M. assert (M' := M). apply Vi in M. destruct M as [F Sh]. subst fl.
+          rewrite Sh in *. simpl andb in Vc. simpl orb. simpl map. rewrite app_nil_r.
+          split; [reflexivity|]. split; [exact Vc|]. split; [exact Vr|].
+          intros x. split; [auto|]. intros [H|[->|[X _]]]; auto. discriminate.
         - assert (Ni : ~ In i (cvisited st)) by (rewrite <- mem_nat_In; congruence).
           destruct (sh e) eqn:Sh.
           + (* first short branch of a piece not collected yet *)
@@ -269,7 +270,8 @@ Section Cut.
             { intros x H. apply sids_range in H; auto. unfold inr. rewrite Nc. lia. }
             assert (Rr : forall x, In x (sids r inext) -> inr x inext (slots_ne r)).
             { intros x H. apply sids_range in H; auto. }
-            split; [reflexivity|]. split; [|split].
+            split; [destruct ((if tipflag then [n] else []) ++ side_tips pre ++ side_tips r ++ comp_down c); reflexivity|].
+            split; [|split].
             * split.
               -- intros _ x H. right. rewrite !in_app_iff. auto.
               -- intros x R H. split; auto. rewrite <- Nc in R.
@@ -290,7 +292,8 @@ Section Cut.
                  ++ right. right. auto.
               -- intros [H|[->|[_ [_ [H|H]]]]]; auto.
           + (* a branch that is not short *)
-            simpl cbags. simpl cvisited. rewrite orb_false_r. split; [reflexivity|]. split; [|split].
+            simpl cbags. simpl cvisited. rewrite orb_false_r.
+            split; [destruct tipflag, (is_tip c); reflexivity|]. split; [|split].
             * split; [discriminate|]. intros x R H. exfalso.
               destruct H as [<-|H]; [unfold inr in R; lia|].
               destruct Vc as [_ Vc2]. destruct (Vc2 x R H) as [X _]. rewrite andb_false_r in X. discriminate.
@@ -306,7 +309,7 @@ Section Cut.
       assert (S2 : cbags st2 = cbags st1 ++ map bag_of (if Nat.ltb 1 (degree c) then sgroups c (sh e) else []) /\
                    (forall x, In x (cvisited st2) <-> In x (cvisited st1) \/ inr x (S i) (nedges c))).
       { unfold st2. destruct (Nat.ltb 1 (degree c)) eqn:D.
-        - rewrite Nc. apply Hc; auto. intros X. simpl. exact X.
+        - rewrite Nc. apply Hc; auto.
         - simpl. rewrite app_nil_r. split; auto. intros x. split; [auto|]. intros [H|H]; auto.
           exfalso. apply Nat.ltb_ge in D. destruct c as [nc cc slc]. unfold degree in D. simpl in D.
           rewrite wf_sub_unfold in Wc. apply andb_true_iff in Wc as [U _]. apply Nat.eqb_eq in U.
@@ -320,10 +323,15 @@ Section Cut.
         - intros F x H. apply M2. left. now apply A.
         - intros x R H. apply M2 in H. destruct H as [H|H]; [now apply B|].
           unfold inr, inext in *. lia. }
-      destruct (IH (pre ++ [Some (e, c)]) inext st2 (fl || sh e) HKr Wr) as [B3 M3]; auto.
+      assert (Q' : fl || sh e = false -> quiet maxlen up).
       { intros F. apply orb_false_iff in F as [F _]. auto. }
-      { intros F. apply orb_false_iff in F as [F S]. apply Forall_app. split; auto. }
-      fold visit. fold st1. fold st2. split.
+      assert (L' : fl || sh e = false -> all_long (pre ++ [Some (e, c)])).
+      { intros F. apply orb_false_iff in F as [F S]. apply Forall_app. split; [exact (L F)|].
+        constructor; [exact S|constructor]. }
+      destruct (IH (pre ++ [Some (e, c)]) inext st2 (fl || sh e) HKr Wr Q' L' Vr2) as [B3 M3].
+      change (cut_go n tipflag base up pre (Some (e, c) :: r) i st)
+        with (cut_go n tipflag base up (pre ++ [Some (e, c)]) r inext st2).
+      split.
       + rewrite B3, B2, B1. fold here. rewrite !map_app, <- !app_assoc. reflexivity.
       + intros x. rewrite M3, M2, M1. unfold inr, inext. simpl slots_ne.
         assert (Rc : forall y, In y (sids (uslots c) (S i)) -> S i <= y < S i + nedges c).
@@ -339,8 +347,9 @@ Section Cut.
           destruct (le_lt_dec (S i + nedges c) x); [right; lia|left; right; lia].
     - (* the parent slot *)
       simpl kids_of in HK, W. simpl cut_go. simpl sg_go. apply vinv_up in V.
-      destruct (IH (pre ++ [None]) i st fl HK W Q) as [B M]; auto.
-      intros F. apply Forall_app. split; auto.
+      assert (L' : fl = false -> all_long (pre ++ [None])).
+      { intros F. apply Forall_app. split; [exact (L F)|]. constructor; [exact I|constructor]. }
+      exact (IH (pre ++ [None]) i st fl HK W Q L' V).
   Qed.
 
   Theorem cut_rec_sem t : cut_ok t.
